@@ -46,10 +46,18 @@ impl Curve {
     /// The delta-min vector is chosen such that it covers all
     /// arrivals until the given `horizon`.
     pub fn from_arrival_bound_until<T: ArrivalBound>(ab: &T, horizon: Duration) -> Curve {
+        // A delta-min vector must end in a non-zero distance to be meaningful
+        // (a burst of simultaneous arrivals alone does not say how often the
+        // burst may recur), so never stop before the first non-zero distance.
+        let mut positive_distance_seen = false;
         Self::new(
             nonzero_delta_min_iter(&ab)
                 .enumerate()
-                .take_while(|(count, (_njobs, delta))| *delta <= horizon || *count < 2)
+                .take_while(|(count, (_njobs, delta))| {
+                    let keep = *delta <= horizon || *count < 2 || !positive_distance_seen;
+                    positive_distance_seen |= delta.is_non_zero();
+                    keep
+                })
                 .map(|(_count, (_njobs, delta))| delta)
                 .collect(),
         )
@@ -61,10 +69,18 @@ impl Curve {
     /// The delta-min vector is chosen such that it covers at least
     /// `up_to_njobs` job arrivals.
     pub fn from_arrival_bound<T: ArrivalBound>(ab: &T, up_to_njobs: usize) -> Curve {
+        // A delta-min vector must end in a non-zero distance to be meaningful
+        // (a burst of simultaneous arrivals alone does not say how often the
+        // burst may recur), so never stop before the first non-zero distance.
+        let mut positive_distance_seen = false;
         Self::new(
             nonzero_delta_min_iter(&ab)
                 .enumerate()
-                .take_while(|(count, (njobs, _delta))| *njobs <= up_to_njobs || *count < 2)
+                .take_while(|(count, (njobs, delta))| {
+                    let keep = *njobs <= up_to_njobs || *count < 2 || !positive_distance_seen;
+                    positive_distance_seen |= delta.is_non_zero();
+                    keep
+                })
                 .map(|(_count, (_njobs, delta))| delta)
                 .collect(),
         )
